@@ -71,6 +71,10 @@ def programs(draw, target):
     ops, pos = [], 0
     reads = IND_READS if target == "indicator" else HX_READS
     while pos < n and len(ops) < 40:
+        if draw(st.integers(0, 9)) == 0:
+            # recompute an older index (done to the twin as well): the indicator's cursor then rests on that candle,
+            # which is the state in which a read-only call that moved it would show
+            ops.append({"op": "cursor", "index": draw(st.integers(0, 40))})
         if draw(st.integers(0, 2)) == 0:
             ops.append({"op": "read", "what": draw(st.sampled_from(reads)), "arg": draw(st.integers(0, 5))})
         else:
@@ -252,7 +256,17 @@ def run_case(case) -> Result:
     sent, read_then_append, seen_read = [], False, False
     for k, op in enumerate(case["ops"]):
         where = f"op {k} {op['op']}:{op.get('what', op.get('enc'))}"
-        if op["op"] == "read":
+        if op["op"] == "cursor":
+            try:
+                for obj in (real, twin):
+                    ind = obj.indicator(names[0]) if is_hx else obj
+                    n = len(ind.candles)
+                    if n >= 2 and ind.name in ind.candles[op["index"] % (n - 1)].indicators:
+                        ind.calculate_index(op["index"] % (n - 1))
+                        labels.append("cursor_on_older_candle")
+            except Exception:
+                return Result([], read_then_append, labels + ["twin_raises"])
+        elif op["op"] == "read":
             seen_read = True
             try:
                 _do_read(real, op["what"], op.get("arg", 0), is_hx, names)
@@ -260,7 +274,7 @@ def run_case(case) -> Result:
                 v = raises(exc, "read:" + op["what"])
                 v.detail = where + ": " + v.detail
                 return Result([v], read_then_append, labels)
-        else:
+        elif op["op"] == "append":
             if seen_read:
                 read_then_append = True
             if op["enc"].startswith("list"):
@@ -289,7 +303,7 @@ def run_case(case) -> Result:
                             return Result([Violation("timeframe-did-not-receive-the-candles", "append:" + op["enc"].replace("_single", ""), f"{where}: manager {mname} holds {len(got)} candles {got[-2:]} but the rows sent so far resample to {len(want)} {want[-2:]}", "append")], read_then_append, labels)
         a, b = state(real), state(twin)
         if not same(a, b):
-            site = ("read:" + op["what"]) if op["op"] == "read" else "append:" + op["enc"].replace("_single", "")
+            site = ("read:" + op["what"]) if op["op"] == "read" else "cursor:calculate_index" if op["op"] == "cursor" else "append:" + op["enc"].replace("_single", "")
             return Result([Violation("state-differs-from-twin", site, f"{where}: " + _first_difference(a, b), site.split(":")[0])], read_then_append, labels)
     return Result([], read_then_append, sorted(set(labels)))
 
